@@ -9,7 +9,7 @@ PROPS = {
             "quick": [{"harness": "polytree", "args": ["--scope", "S1", "--nmax", 4, "--treeD", 1]},
                       {"harness": "polytree", "args": ["--scope", "S0", "--board", "twins", "--both", 1, "--k", 16, "--nmin", 4, "--nmax", 5, "--treeD", 1]},
                       {"harness": "polytree", "args": ["--scope", "S1", "--board", "twins", "--k", 8, "--nmin", 3, "--nmax", 4, "--treeD", 1]},
-                      {"harness": "polytree", "args": ["--scope", "rings", "--rings", 6]},
+                      {"harness": "polytree", "args": ["--scope", "rings", "--rings", 6, "--open", 1]},
                       {"harness": "polytree", "args": ["--scope", "rect", "--g", 4, "--nsub", 2]},
                       {"harness": "polytree", "args": ["--scope", "cells", "--w", 6, "--h", 6]},
                       {"harness": "polytree", "args": ["--scope", "cells", "--w", 7, "--h", 5, "--frames", 1]},
@@ -18,7 +18,7 @@ PROPS = {
                          {"harness": "polytree", "args": ["--scope", "S0", "--board", "twins", "--both", 1, "--k", 16, "--nmin", 4, "--nmax", 6, "--treeD", 1]},
                          {"harness": "polytree", "args": ["--scope", "S1", "--board", "twins", "--k", 8, "--nmin", 3, "--nmax", 5, "--treeD", 1]},
                          {"harness": "polytree", "args": ["--scope", "S2", "--nmax", 4]},
-                         {"harness": "polytree", "args": ["--scope", "rings", "--rings", 8, "--treeD", 1]},
+                         {"harness": "polytree", "args": ["--scope", "rings", "--rings", 8, "--treeD", 1, "--open", 1]},
                          {"harness": "polytree", "args": ["--scope", "rect", "--g", 4, "--nsub", 3]},
                          {"harness": "polytree", "args": ["--scope", "cells", "--w", 7, "--h", 6]},
                          {"harness": "polytree", "args": ["--scope", "cells", "--w", 6, "--h", 7]},
@@ -27,7 +27,7 @@ PROPS = {
                          {"harness": "polytree", "args": ["--scope", "cells", "--w", 6, "--h", 6, "--frames", 1]},
                          {"harness": "polytree", "args": ["--scope", "subsets", "--rects", "0,8 16,8 16,12 0,12;4,24 8,24 8,12 4,12;8,12 16,12 16,16 8,16;12,16 16,16 16,20 12,20;4,12 12,12 12,20 4,20;0,12 8,12 8,20 0,20;0,12 4,12 4,24 0,24"], "shards": 4}],
         },
-        "rule": "general-position scopes of C01 (also through ClipperD/PolyTreeD at precisions 0 and 2; also over the 'twins' boards: coordinates of order 10^5 with near-coincident point pairs, i.e. needle-thin spikes and crossings a few units apart), every presence/orientation/subject-clip assignment of up to 8 concentric rings, and every set of 2-3 subject rectangles + 1 clip rectangle "
+        "rule": "general-position scopes of C01 (also through ClipperD/PolyTreeD at precisions 0 and 2; also over the 'twins' boards: coordinates of order 10^5 with near-coincident point pairs, i.e. needle-thin spikes and crossings a few units apart), every presence/orientation/subject-clip assignment of up to 8 concentric rings (each also with two open subject paths running through the ring gaps), and every set of 2-3 subject rectangles + 1 clip rectangle "
                 "on a 4-line lattice of spacing 4; a ring of cells round a 6x6 (thorough 7x6, 6x7) grid plus every subset of the interior cells in ten rectangle decompositions (Union/NonZero, Xor with the interior, Difference/EvenOdd from the full square), and the same for 7x5 (thorough also 5x7, 6x6) grids with the ring given as four bars in each of the 81 corner-ownership variants (corner covered by both bars / the horizontal / the vertical one) and the interior as unit cells and as column runs; x 4 clip types x 4 fill rules; non-trivial = the tree has depth >= 2 (at least one hole)",
         "level_text": "Every input of the scopes is executed into Paths and into a PolyTree on the real library; flattened tree == paths (exact canonical equality), every child inside its parent and outside its siblings (exact point-in-polygon), orientation alternates with level, tree area == paths area.",
         "assumptions": ["scopes bounded as stated", "containment is judged at an edge midpoint of the child that is not on the other polygon's boundary"],
